@@ -11,7 +11,7 @@ src = f"{ROOT}/{pid}/out/{k}"
 wt = f"{ROOT}/{pid}/repo"
 env = dict(os.environ, GOFLAGS="-mod=mod", GOPROXY="off", GOSUMDB="off", GOTOOLCHAIN="local")
 def sh(cmd, cwd=wt):
-    p = subprocess.run(cmd, shell=True, cwd=cwd, env=env, stdout=subprocess.PIPE, stderr=subprocess.STDOUT, text=True)
+    p = subprocess.run(cmd, shell=True, cwd=cwd, env=env, stdout=subprocess.PIPE, stderr=subprocess.STDOUT, text=True, errors="replace")
     return p.returncode, p.stdout
 def clean():
     sh("git checkout -- . && git clean -fdq")
@@ -33,7 +33,7 @@ log["confirmed"] = ok
 # my checks against it
 checks = {}
 for tier in ["quick"]:
-    p = subprocess.run(f"/verif/tools/run_seeded.sh {src}/patch.diff {pid} {tier}", shell=True, stdout=subprocess.PIPE, stderr=subprocess.STDOUT, text=True)
+    p = subprocess.run(f"/verif/tools/run_seeded.sh {src}/patch.diff {pid} {tier}", shell=True, stdout=subprocess.PIPE, stderr=subprocess.STDOUT, text=True, errors="replace")
     checks[tier] = {"exit": p.returncode, "lines": [l for l in p.stdout.splitlines() if l.startswith(("VIOLATION", "[", "exit"))][:4]}
 log["my_check"] = checks
 meta = json.load(open(os.path.join(src, "meta.json")))
